@@ -19,21 +19,43 @@ import (
 // repository the result is exact.
 
 type gop struct {
-	kind byte // '+', '*', '/', '%'
+	kind byte // '+', '*', '/', '%', 'T' (table lookup)
 	c    int64
+	tab  *gtable
+}
+
+// gtable is a constant integer table: an array/slice literal (dense) or a map literal.
+type gtable struct {
+	name  string
+	dense []int64         // array or slice: index must be in range
+	keyed map[int64]int64 // map: missing keys give 0
 }
 
 type gexpr struct{ ops []gop }
 
 func (e gexpr) with(k byte, c int64) *gexpr {
-	n := gexpr{append(append([]gop{}, e.ops...), gop{k, c})}
+	n := gexpr{append(append([]gop{}, e.ops...), gop{kind: k, c: c})}
 	return &n
+}
+
+func (e gexpr) withTable(t *gtable) *gexpr {
+	n := gexpr{append(append([]gop{}, e.ops...), gop{kind: 'T', tab: t})}
+	return &n
+}
+
+func (e gexpr) hasTable() bool {
+	for _, o := range e.ops {
+		if o.kind == 'T' {
+			return true
+		}
+	}
+	return false
 }
 
 func (e gexpr) monotone() bool {
 	for _, o := range e.ops {
 		switch o.kind {
-		case '%':
+		case '%', 'T':
 			return false
 		case '*', '/':
 			if o.c <= 0 {
@@ -110,6 +132,15 @@ func (e gexpr) eval(v int64, bits int) (int64, bool) {
 				return 0, false
 			}
 			v %= o.c
+		case 'T':
+			if o.tab.keyed != nil {
+				v = o.tab.keyed[v]
+			} else {
+				if v < 0 || v >= int64(len(o.tab.dense)) {
+					return 0, false
+				}
+				v = o.tab.dense[v]
+			}
 		}
 	}
 	return v, true
@@ -125,6 +156,8 @@ type GateResult struct {
 	Atoms    int                      // number of refining conditions found
 	Opaque   []ssa.Instruction        // conditions that depend on the subject but are not atoms
 	Bits     int
+	Tables   func(g *ssa.Global) *gtable // constant tables of the module (nil: none)
+	Relied   map[*ssa.Global]bool        // tables the result depends on (must be initialiser-only)
 }
 
 func intConst(v ssa.Value) (int64, bool) {
@@ -184,6 +217,46 @@ func (g *GateResult) derive(v ssa.Value, depth int) *gexpr {
 				return e.with('*', c)
 			}
 		}
+	case *ssa.UnOp:
+		// T[e]: load of an element of a constant array/slice table
+		if x.Op == token.MUL {
+			if ia, ok := x.X.(*ssa.IndexAddr); ok && g.Tables != nil {
+				var tg *ssa.Global
+				if gl, ok := ia.X.(*ssa.Global); ok {
+					tg = gl
+				} else if gl := loadedGlobal(ia.X); gl != nil {
+					tg = gl
+				}
+				if tg != nil {
+					if t := g.Tables(tg); t != nil && t.dense != nil {
+						if e := g.derive(ia.Index, depth+1); e != nil {
+							g.Relied[tg] = true
+							return e.withTable(t)
+						}
+					}
+				}
+			}
+		}
+	case *ssa.Lookup:
+		if gl := loadedGlobal(x.X); gl != nil && g.Tables != nil && !x.CommaOk {
+			if t := g.Tables(gl); t != nil && t.keyed != nil {
+				if e := g.derive(x.Index, depth+1); e != nil {
+					g.Relied[gl] = true
+					return e.withTable(t)
+				}
+			}
+		}
+	case *ssa.Extract:
+		if lk, ok := x.Tuple.(*ssa.Lookup); ok && lk.CommaOk && x.Index == 0 {
+			if gl := loadedGlobal(lk.X); gl != nil && g.Tables != nil {
+				if t := g.Tables(gl); t != nil && t.keyed != nil {
+					if e := g.derive(lk.Index, depth+1); e != nil {
+						g.Relied[gl] = true
+						return e.withTable(t)
+					}
+				}
+			}
+		}
 	case *ssa.Convert:
 		// widening or same-width signed integer conversions preserve the value
 		if isIntType(x.Type()) && isIntType(x.X.Type()) {
@@ -227,9 +300,10 @@ func (g *GateResult) dependsOnSubject(v ssa.Value, depth int) bool {
 }
 
 type atom struct {
-	e  *gexpr
-	op token.Token
-	c  int64
+	e    *gexpr
+	op   token.Token
+	c    int64
+	keys map[int64]int64 // non-nil: the atom is "e is a key of this table" (op EQL) or its negation (NEQ)
 }
 
 func flipOp(op token.Token) token.Token {
@@ -274,6 +348,23 @@ func (g *GateResult) atomOf(cond ssa.Value) (*atom, bool) {
 		neg = !neg
 		cond = u.X
 	}
+	if ex, ok := cond.(*ssa.Extract); ok && ex.Index == 1 {
+		if lk, ok := ex.Tuple.(*ssa.Lookup); ok && lk.CommaOk && g.Tables != nil {
+			if gl := loadedGlobal(lk.X); gl != nil {
+				if t := g.Tables(gl); t != nil && t.keyed != nil {
+					if e := g.derive(lk.Index, 0); e != nil {
+						g.Relied[gl] = true
+						a := &atom{e: e, op: token.EQL, keys: t.keyed}
+						if neg {
+							a.op = token.NEQ
+						}
+						return a, true
+					}
+				}
+			}
+		}
+		return nil, false
+	}
 	b, ok := cond.(*ssa.BinOp)
 	if !ok {
 		return nil, false
@@ -286,11 +377,11 @@ func (g *GateResult) atomOf(cond ssa.Value) (*atom, bool) {
 	var a *atom
 	if c, ok := intConst(b.Y); ok {
 		if e := g.derive(b.X, 0); e != nil {
-			a = &atom{e, b.Op, c}
+			a = &atom{e: e, op: b.Op, c: c}
 		}
 	} else if c, ok := intConst(b.X); ok {
 		if e := g.derive(b.Y, 0); e != nil {
-			a = &atom{e, flipOp(b.Op), c}
+			a = &atom{e: e, op: flipOp(b.Op), c: c}
 		}
 	}
 	if a == nil {
@@ -344,6 +435,9 @@ func (g *GateResult) refine(s ZSet, a *atom, want bool) ZSet {
 	op := a.op
 	if !want {
 		op = negOp(op)
+	}
+	if a.keys != nil || a.e.hasTable() {
+		return g.refineByEnumeration(s, a, op)
 	}
 	dlo, dhi := s.cells[0].lo, s.cells[0].hi
 	for _, c := range s.cells {
@@ -449,7 +543,7 @@ func (g *GateResult) refine(s ZSet, a *atom, want bool) ZSet {
 		return s
 	}
 	if mul, add, m, ok := a.e.periodic(); ok {
-		lin := gexpr{[]gop{{'*', mul}, {'+', add}}}
+		lin := gexpr{[]gop{{kind: '*', c: mul}, {kind: '+', c: add}}}
 		// restrict to the part of the hull where mul·v+add does not overflow
 		_, okLo := lin.eval(dlo, g.Bits)
 		_, okHi := lin.eval(dhi, g.Bits)
@@ -538,8 +632,8 @@ func minI(a, b int64) int64 {
 
 // AnalyseGate runs the reach-set analysis.  defBlock is the block in which the subject
 // becomes defined (entry block for a parameter).
-func AnalyseGate(fn *ssa.Function, subjects map[ssa.Value]bool, defBlock *ssa.BasicBlock, domain ZSet, bits int) *GateResult {
-	g := &GateResult{Fn: fn, Subjects: subjects, Domain: domain, Reach: map[*ssa.BasicBlock]ZSet{}, Pre: map[*ssa.BasicBlock]bool{}, Bits: bits}
+func AnalyseGate(fn *ssa.Function, subjects map[ssa.Value]bool, defBlock *ssa.BasicBlock, domain ZSet, bits int, tables func(*ssa.Global) *gtable) *GateResult {
+	g := &GateResult{Fn: fn, Subjects: subjects, Domain: domain, Reach: map[*ssa.BasicBlock]ZSet{}, Pre: map[*ssa.BasicBlock]bool{}, Bits: bits, Tables: tables, Relied: map[*ssa.Global]bool{}}
 	if len(fn.Blocks) == 0 {
 		return g
 	}
@@ -603,4 +697,104 @@ func AnalyseGate(fn *ssa.Function, subjects map[ssa.Value]bool, defBlock *ssa.Ba
 		}
 	}
 	return g
+}
+
+
+// refineByEnumeration handles atoms over constant tables: the candidate subject values
+// at which the truth of the atom is not constant are finitely many (indices of the table /
+// keys of the map, pulled back through the invertible part of the chain); they are listed
+// and the atom is evaluated on each.  Values at which the chain cannot be evaluated
+// (index out of range: the program would panic there) stay on both edges.
+func (g *GateResult) refineByEnumeration(s ZSet, a *atom, op token.Token) ZSet {
+	if vs, ok := s.Enumerate(8192); ok {
+		var keep []int64
+		for _, v := range vs {
+			if g.atomTruth(a, op, v) != 0 {
+				keep = append(keep, v)
+			}
+		}
+		return ZOf(keep...)
+	}
+	// infinite S: split off the finite region where the table matters
+	// find the prefix of the chain before the first table op; it must be the identity or +c
+	shift := int64(0)
+	var first *gtable
+	for _, o := range a.e.ops {
+		if o.kind == 'T' {
+			first = o.tab
+			break
+		}
+		if o.kind != '+' {
+			return s
+		}
+		shift += o.c
+	}
+	keys := a.keys
+	if first != nil && first.keyed != nil {
+		keys = first.keyed
+	}
+	var region []int64
+	switch {
+	case first != nil && first.dense != nil:
+		for i := range first.dense {
+			region = append(region, int64(i)-shift)
+		}
+	case keys != nil:
+		if first == nil {
+			// inkeys atom on a plain chain: only identity/+c supported
+			for _, o := range a.e.ops {
+				if o.kind != '+' {
+					return s
+				}
+			}
+			shift = 0
+			for _, o := range a.e.ops {
+				shift += o.c
+			}
+		}
+		for k := range keys {
+			region = append(region, k-shift)
+		}
+	default:
+		return s
+	}
+	inside := s.IntersectFinite(region)
+	outside := s.MinusFinite(region)
+	var keep []int64
+	if vs, ok := inside.Enumerate(8192); ok {
+		for _, v := range vs {
+			if g.atomTruth(a, op, v) != 0 {
+				keep = append(keep, v)
+			}
+		}
+	}
+	out := ZOf(keep...)
+	// outside the region: dense tables cannot be evaluated (kept), map tables give the zero value / "not a key"
+	if first != nil && first.dense != nil {
+		return out.Union(outside)
+	}
+	probe := outside.Sample(1)
+	if len(probe) == 1 && g.atomTruth(a, op, probe[0]) != 0 {
+		return out.Union(outside)
+	}
+	return out
+}
+
+// atomTruth: 1 true, 0 false, 2 cannot be evaluated (kept on both edges)
+func (g *GateResult) atomTruth(a *atom, op token.Token, v int64) int {
+	x, ok := a.e.eval(v, g.Bits)
+	if !ok {
+		return 2
+	}
+	if a.keys != nil {
+		_, in := a.keys[x]
+		if in == (op == token.EQL) {
+			return 1
+		}
+		return 0
+	}
+	if cmpHolds(x, op, a.c) {
+		return 1
+	}
+	return 0
 }
